@@ -1,5 +1,337 @@
 package main
 
-import "verif/harness/internal/rng"
+import (
+	"bytes"
+	"errors"
+	"fmt"
+	"io"
+	"math"
+	"math/bits"
 
-func codecsPhase(r *rng.R, thorough bool) {}
+	"github.com/splunk/stef/go/pkg"
+	"github.com/splunk/stef/go/pkg/codecs"
+
+	"verif/harness/internal/rng"
+)
+
+// column transfers the data an encoder collected into a fresh ReadBufs whose root column the
+// decoder was initialised with (the path real frames take: WriteBufs.WriteTo -> ReadBufs.ReadFrom).
+func transfer(wb *pkg.WriteBufs, rb *pkg.ReadBufs) ([]byte, error) {
+	var buf bytes.Buffer
+	if err := wb.WriteTo(&buf); err != nil {
+		return nil, err
+	}
+	all := append([]byte(nil), buf.Bytes()...)
+	// column data = everything after the size table: re-extract for the op line
+	var data bytes.Buffer
+	if err := wb.Columns.WriteDataTo(&data); err != nil {
+		return nil, err
+	}
+	if err := rb.ReadFrom(&buf, uint64(len(all))); err != nil {
+		return nil, err
+	}
+	return data.Bytes(), nil
+}
+
+func errStr(err error) string {
+	switch {
+	case err == nil:
+		return ""
+	case errors.Is(err, io.EOF):
+		return "err:eof"
+	case errors.Is(err, codecs.ErrInvalidRefNum):
+		return "err:refnum"
+	}
+	return "err:other"
+}
+
+func floatClass(r *rng.R, prev uint64) uint64 {
+	switch r.Intn(12) {
+	case 0:
+		return prev // identical
+	case 1:
+		return 0
+	case 2:
+		return 1 << 63 // -0
+	case 3:
+		return 0x7ff0000000000000 // +inf
+	case 4:
+		return 0xfff0000000000000
+	case 5:
+		return 0x7ff8000000000000 | (r.U64() & 0x7ffffffffffff) // NaN with payload
+	case 6:
+		return r.U64() & 0xfffffffffffff // subnormal
+	case 7:
+		return math.Float64bits(float64(r.Intn(1000)))
+	case 8:
+		// controlled xor window: choose leading/trailing zeros of the xor explicitly
+		lead := r.Intn(64)
+		trail := r.Intn(64 - lead)
+		sig := 64 - lead - trail
+		x := r.BitsExact(sig) | 1
+		if sig == 0 {
+			x = 1
+			sig = 1
+		}
+		return prev ^ (x << uint(trail))
+	case 9:
+		return prev ^ (1 << uint(r.Intn(64)))
+	case 10:
+		return math.Float64bits(math.Float64frombits(prev) + 0.1)
+	}
+	return r.U64()
+}
+
+func intClass(r *rng.R, prev uint64) uint64 {
+	switch r.Intn(8) {
+	case 0:
+		return prev
+	case 1:
+		return prev + uint64(r.Intn(10))
+	case 2:
+		return 0
+	case 3:
+		return math.MaxUint64
+	case 4:
+		return 1 << 63
+	case 5:
+		return prev - uint64(r.Intn(1000)) // may wrap
+	case 6:
+		return prev + (1 << 62) + uint64(r.Intn(5)) // deltas wrap around
+	}
+	return r.U64()
+}
+
+var strPool = [][]byte{{}, {'a'}, {'a', 'b'}, []byte("hello"), []byte("hello world, a longer string value"), {0, 0}, {0xff}}
+
+func strClass(r *rng.R) []byte {
+	if r.Chance(2, 3) {
+		return strPool[r.Intn(len(strPool))]
+	}
+	b := make([]byte, r.Intn(300))
+	for i := range b {
+		b[i] = byte(r.U64())
+	}
+	return b
+}
+
+func codecsPhase(r *rng.R, thorough bool) {
+	n := 150
+	if thorough {
+		n = 4000
+	}
+	for c := 0; c < n; c++ {
+		name := fmt.Sprintf("codec-%d", c)
+		note("case %s", name)
+		var lim pkg.SizeLimiter
+		lim.Init(&pkg.WriterOptions{MaxTotalDictSize: 1 << 30})
+		// encoders
+		var ue codecs.Uint64Encoder
+		var ie codecs.Int64Encoder
+		var fe codecs.Float64Encoder
+		var be codecs.BoolEncoder
+		var se codecs.StringEncoder
+		var de codecs.StringDictEncoder
+		var dd codecs.StringDictEncoderDict
+		dd.Init(&lim)
+		ue.Init(&lim, nil)
+		ie.Init(&lim, nil)
+		fe.Init(&lim, nil)
+		be.Init(&lim, nil)
+		se.Init(&lim, nil)
+		de.Init(&dd, &lim, nil)
+		// decoders, each with its own ReadBufs root column
+		var urb, frb, brb, srb, drb pkg.ReadBufs
+		var ud codecs.Uint64Decoder
+		var fd codecs.Float64Decoder
+		var bd codecs.BoolDecoder
+		var sd codecs.StringDecoder
+		var ddec codecs.StringDictDecoder
+		var rdict codecs.StringDictDecoderDict
+		rdict.Init()
+		ud.Init(&urb.Columns)
+		fd.Init(&frb.Columns)
+		bd.Init(&brb.Columns)
+		sd.Init(&srb.Columns)
+		ddec.Init(&rdict, &drb.Columns)
+		emit("ce new", "ok")
+		emit("cx new", "ok")
+		_ = ie
+		frames := 1 + r.Intn(3)
+		var prevF, prevU uint64
+		hashv := uint64(c)
+		classes := map[string]bool{}
+		for f := 0; f < frames; f++ {
+			k := r.Intn(25)
+			var us, fs []uint64
+			var bs []bool
+			var ss, ds [][]byte
+			for i := 0; i < k; i++ {
+				u := intClass(r, prevU)
+				prevU = u
+				us = append(us, u)
+				ue.Encode(u)
+				emit(fmt.Sprintf("ce u64 %x", u), "ok")
+				fv := floatClass(r, prevF)
+				x := fv ^ prevF
+				if x != 0 {
+					classes[fmt.Sprintf("l%d-t%d", bits.LeadingZeros64(x), bits.TrailingZeros64(x))] = true
+					stats["f64-xor-nonzero"]++
+				} else {
+					stats["f64-identical"]++
+				}
+				prevF = fv
+				fs = append(fs, fv)
+				fe.Encode(math.Float64frombits(fv))
+				emit(fmt.Sprintf("ce f64 %x", fv), "ok")
+				b := r.Bool()
+				bs = append(bs, b)
+				be.Encode(b)
+				bi := 0
+				if b {
+					bi = 1
+				}
+				emit(fmt.Sprintf("ce bool %d", bi), "ok")
+				s := strClass(r)
+				ss = append(ss, s)
+				se.Encode(string(s))
+				emit("ce str "+hx(s), "ok")
+				d := strClass(r)
+				ds = append(ds, d)
+				de.Encode(string(d))
+				emit("ce dstr "+hx(d), "ok")
+				hashv = hashv*1099511628211 ^ u ^ fv
+			}
+			stats["codec-values"] += k
+			// close the "frame": collect each encoder's column and hand it to its decoder
+			type col struct {
+				kind string
+				coll func(*pkg.WriteColumnSet)
+				rb   *pkg.ReadBufs
+				cont func()
+			}
+			cols := []col{
+				{"u64", ue.CollectColumns, &urb, ud.Continue},
+				{"f64", fe.CollectColumns, &frb, fd.Continue},
+				{"bool", be.CollectColumns, &brb, bd.Continue},
+				{"str", se.CollectColumns, &srb, sd.Continue},
+				{"dstr", de.CollectColumns, &drb, ddec.Continue},
+			}
+			for _, cl := range cols {
+				var wb pkg.WriteBufs
+				cl.coll(&wb.Columns)
+				data, err := transfer(&wb, cl.rb)
+				if err != nil {
+					propFail("C20 codec-transfer-error case=%s kind=%s err=%v", name, cl.kind, err)
+					return
+				}
+				emit("ce "+cl.kind+"close", hx(data))
+				emit("cx load "+cl.kind+" "+hx(data), "ok")
+				cl.cont()
+			}
+			// decode and check the round trip directly
+			for i := 0; i < k; i++ {
+				var u uint64
+				err := ud.Decode(&u)
+				if err != nil {
+					emit("cx u64", errStr(err))
+				} else {
+					emit("cx u64", fmt.Sprintf("%016x", u))
+				}
+				if err != nil || u != us[i] {
+					propFail("C20 dod-roundtrip case=%s frame=%d i=%d wrote=%x read=%x err=%v", name, f, i, us[i], u, err)
+				}
+				var fv float64
+				err = fd.Decode(&fv)
+				emit("cx f64", fmt.Sprintf("%016x eof=%d", math.Float64bits(fv), eofFlag(err)))
+				if err != nil || math.Float64bits(fv) != fs[i] {
+					propFail("C20 float-roundtrip case=%s frame=%d i=%d wrote=%x read=%x err=%v", name, f, i, fs[i], math.Float64bits(fv), err)
+				}
+				var b bool
+				err = bd.Decode(&b)
+				bi := 0
+				if b {
+					bi = 1
+				}
+				emit("cx bool", fmt.Sprintf("%d eof=%d", bi, eofFlag(err)))
+				if err != nil || b != bs[i] {
+					propFail("C20 bool-roundtrip case=%s i=%d", name, i)
+				}
+				var s string
+				err = sd.Decode(&s)
+				if err != nil {
+					emit("cx str", errStr(err))
+				} else {
+					emit("cx str", hx([]byte(s)))
+				}
+				if err != nil || s != string(ss[i]) {
+					propFail("C20 string-roundtrip case=%s i=%d wrote=%x read=%x err=%v", name, i, ss[i], s, err)
+				}
+				var d string
+				err = ddec.Decode(&d)
+				if err != nil {
+					emit("cx dstr", errStr(err))
+				} else {
+					emit("cx dstr", hx([]byte(d)))
+				}
+				if err != nil || d != string(ds[i]) {
+					propFail("C20 dictstring-roundtrip case=%s i=%d wrote=%x read=%x err=%v", name, i, ds[i], d, err)
+				}
+			}
+			// reading past the end of each column must be reported as an error, not as data
+			if r.Chance(1, 2) {
+				var u uint64
+				err := ud.Decode(&u)
+				if err != nil {
+					emit("cx u64", errStr(err))
+				} else {
+					emit("cx u64", fmt.Sprintf("%016x", u))
+					propFail("C20 overread-bytes case=%s u64 decoder returned data past the end", name)
+				}
+				var s string
+				err = sd.Decode(&s)
+				if err != nil {
+					emit("cx str", errStr(err))
+				} else {
+					emit("cx str", hx([]byte(s)))
+					propFail("C20 overread-bytes case=%s string decoder returned data past the end", name)
+				}
+				var b bool
+				err = bd.Decode(&b)
+				bi := 0
+				if b {
+					bi = 1
+				}
+				emit("cx bool", fmt.Sprintf("%d eof=%d", bi, eofFlag(err)))
+				if err == nil {
+					propFail("C20 overread-56 case=%s bool decoder returned a value past the end of its column (phantom bits) with Error()==nil", name)
+				}
+				stats["overread-probes"]++
+			}
+			// between frames: optionally reset codecs and/or dictionaries on both sides
+			if f+1 < frames {
+				if r.Bool() {
+					ue.Reset()
+					fe.Reset()
+					ud.Reset()
+					fd.Reset()
+					emit("ce reset", "ok")
+					emit("cx reset", "ok")
+					prevF, prevU = 0, 0
+					stats["codec-resets"]++
+				}
+				if r.Bool() {
+					dd.Reset()
+					rdict.Reset()
+					emit("ce resetdict", "ok")
+					emit("cx resetdict", "ok")
+					stats["dict-resets"]++
+				}
+			}
+		}
+		if len(classes) >= 2 {
+			note("nontrivial %x", hashv)
+		}
+		stats["f64-window-classes"] += len(classes)
+	}
+}
